@@ -67,6 +67,24 @@ CHECKS["C14"] = dict(
    note="Trusted: Coq kernel + vm_compute; torch.multinomial/Generator determinism; the harness's re-derivation of the rank/epoch seed is the specification of the seeding clause; "
         "known finding D12 (empty source under a cycling criterion) is matched specifically.",
    technique="Coq proof over hand-written Gallina model + lockstep correspondence (vm_compute) + direct oracle")
+CHECKS["C01"] = dict(
+   text="Executable Gallina model of the multi-process StatefulDataLoader iterator (SdlModel.v: worker machines with position/ended/iteration_end, task dispatch with the "
+        "snapshot flag arithmetic, reorder buffer, retirement of exhausted workers, _take_snapshot with its alignment assertion, state_dict, and construction from a state dict incl. "
+        "the fast-forward path) parameterised by an explicit result-arrival SCHEDULE; theorems in Properties_C01.v. Tied to the code on every run by lockstep correspondence with REAL "
+        "worker processes driven through the same arrival schedule: after every next() the batch, the main-process bookkeeping (_send_idx, _rcvd_idx, _workers_status, "
+        "_tasks_outstanding, _num_yielded, _last_yielded_worker_id) and the abstracted state_dict() are compared with the model; histories are checkpoint/resume chains at every k. "
+        "Direct oracle: resumed stream == uninterrupted suffix incl. the following epoch, also for num_workers=0, persistent workers, shuffle, stateful samplers.",
+   design="DESIGN.md 4 C01",
+   note="Trusted: Coq kernel + vm_compute; the arrival-scheduling multiprocessing context; harness datasets (user contract: load_state_dict(state_dict()) restores the position before exhaustion); "
+        "persistent_workers, shuffle and num_workers=0 are covered by the oracle only (not in the model); known finding D13 matched specifically.",
+   technique="Coq proof over hand-written Gallina model + lockstep correspondence under scheduled arrival (vm_compute) + direct oracle")
+CHECKS["C03"] = dict(
+   text="Same SDL model; reference = sampler batches (map-style) / column-major interleave of the per-worker batch lists (iterable); theorems in Properties_C03.v. Correspondence: one epoch "
+        "under random arrival schedules with real workers, every next() compared with the model; oracle: equality with the list reference AND with torch.utils.data.DataLoader on identical "
+        "arguments; free-running multi-epoch runs for num_workers=0, persistent workers, shuffle (permutation), in_order=False (multiset).",
+   design="DESIGN.md 4 C03",
+   note="Trusted: Coq kernel + vm_compute; torch.utils.data.DataLoader as the named reference; arrival-scheduling context.",
+   technique="Coq proof over hand-written Gallina model + lockstep correspondence under scheduled arrival + torch differential oracle")
 props = [json.loads(l) for l in open(os.path.join(V, "properties.jsonl"))]
 checks, na = [], []
 for p in props:
